@@ -63,6 +63,18 @@ const REQUEST_TIMEOUT: Duration = Duration::from_secs(30);
 /// The local node is always considered fully reliable for its own lookups.
 const SELF_RELIABILITY_SCORE: f64 = 1.0;
 
+/// Shorten a peer id for log output without splitting a UTF-8 character.
+///
+/// Peer ids named in DHT replies are attacker-controlled strings; byte-slicing them
+/// (`&id[..8]`) panics when byte 8 falls inside a multi-byte character.
+fn short_peer_id(id: &str) -> &str {
+    let mut end = id.len().min(8);
+    while !id.is_char_boundary(end) {
+        end -= 1;
+    }
+    &id[..end]
+}
+
 /// DHT node representation for network operations
 #[derive(Debug, Clone, Serialize, Deserialize)]
 pub struct DHTNode {
@@ -960,7 +972,7 @@ impl DhtNetworkManager {
                 batch.len(),
                 batch
                     .iter()
-                    .map(|n| format!("{}@{}", &n.peer_id[..8.min(n.peer_id.len())], &n.address))
+                    .map(|n| format!("{}@{}", short_peer_id(&n.peer_id), &n.address))
                     .collect::<Vec<_>>()
             );
 
@@ -989,7 +1001,7 @@ impl DhtNetworkManager {
                 info!(
                     "[ITERATIVE LOOKUP] {}: Got result from {}: {:?}",
                     self.config.local_peer_id,
-                    &peer_id[..8.min(peer_id.len())],
+                    short_peer_id(&peer_id),
                     result.as_ref().map(std::mem::discriminant)
                 );
 
@@ -1021,13 +1033,13 @@ impl DhtNetworkManager {
                         info!(
                             "[ITERATIVE LOOKUP] {}: Peer {} returned {} closer nodes: {:?}",
                             self.config.local_peer_id,
-                            &peer_id[..8.min(peer_id.len())],
+                            short_peer_id(&peer_id),
                             nodes.len(),
                             nodes
                                 .iter()
                                 .map(|n| format!(
                                     "{}@{}",
-                                    &n.peer_id[..8.min(n.peer_id.len())],
+                                    short_peer_id(&n.peer_id),
                                     &n.address
                                 ))
                                 .collect::<Vec<_>>()
@@ -1044,7 +1056,7 @@ impl DhtNetworkManager {
                                 trace!(
                                     "Candidate queue at capacity ({}), preserving oldest entries and dropping {}",
                                     MAX_CANDIDATE_NODES,
-                                    &node.peer_id[..8.min(node.peer_id.len())]
+                                    short_peer_id(&node.peer_id)
                                 );
                                 continue;
                             }
@@ -1424,7 +1436,7 @@ impl DhtNetworkManager {
                                     trace!(
                                         "[NETWORK] Candidate queue at capacity ({}), dropping {}",
                                         MAX_CANDIDATE_NODES,
-                                        &node.peer_id[..8.min(node.peer_id.len())]
+                                        short_peer_id(&node.peer_id)
                                     );
                                     continue;
                                 }
@@ -1477,7 +1489,7 @@ impl DhtNetworkManager {
             best_nodes.len(),
             best_nodes
                 .iter()
-                .map(|n| &n.peer_id[..8.min(n.peer_id.len())])
+                .map(|n| short_peer_id(&n.peer_id))
                 .collect::<Vec<_>>()
         );
 
